@@ -239,10 +239,11 @@ class Ctx:
 
 
 def write_replay(prop, v):
-    os.makedirs(os.path.join(ROOT, "replays"), exist_ok=True)
+    rdir = os.environ.get("VERIF_REPLAY_DIR") or os.path.join(ROOT, "replays")
+    os.makedirs(rdir, exist_ok=True)
     body = {"property": prop, "sig": v["sig"], "message": v["message"], "case": v["case"],
             "observed": v.get("observed"), "expected": v.get("expected")}
-    path = os.path.join(ROOT, "replays", "%s-%s.json" % (prop, digest([v["sig"], v["case"]])))
+    path = os.path.join(rdir, "%s-%s.json" % (prop, digest([v["sig"], v["case"]])))
     with open(path, "w", encoding="utf8") as f:
         json.dump(body, f, indent=1, ensure_ascii=False, default=repr)
         f.write("\n")
@@ -291,8 +292,9 @@ def finish(ctx: Ctx, extra_cov=None):
         "wall_s": round(time.time() - ctx.t0, 2),
         "violations": sum(1 for _ in new_viol),
     }
-    os.makedirs(os.path.join(ROOT, "evidence"), exist_ok=True)
-    path = os.path.join(ROOT, "evidence", ctx.prop + ".json")
+    edir = os.environ.get("VERIF_EVIDENCE_DIR") or os.path.join(ROOT, "evidence")
+    os.makedirs(edir, exist_ok=True)
+    path = os.path.join(edir, ctx.prop + ".json")
     tmp = path + ".tmp"
     with open(tmp, "w", encoding="utf8") as f:
         json.dump(ev, f, indent=1, ensure_ascii=False, default=repr)
